@@ -2,7 +2,7 @@
    OCaml driver: Coq's own canonical rationals (Qcplus, ... extracted here) for exact runs, OCaml floats otherwise. *)
 Require Import ExtrOcamlBasic.
 From Coq Require Import QArith Qcanon.
-From SharkV Require Import C03Model C05Model C05Expr C05Blocks C05Task.
+From SharkV Require Import C03Model C05Model C05Expr C05Blocks C05Task C05Norm.
 Extraction "c05_model.ml"
   Qcplus Qcmult Qcminus Qcdiv Qcopp qc_make qc_num qc_den qc_isz
   k_lin k_poly k_mono k_gauss k_ard k_disc k_scaled k_wsum k_prod k_norm k_pull k_sub k_pset feat_dist
@@ -10,4 +10,5 @@ Extraction "c05_model.ml"
   gram_reg gram linmap
   g_lin g_poly g_mono g_gauss g_ard g_scaled g_wsum g_sub wid p_poly p_gauss wpd wsumk
   p_one p_none p_ard g_norm p_norm p_wsum p_sub p_model lm_pgrad wpdv
-  den bden gram_mixed kmpd gt_matrix k_mtask.
+  den bden gram_mixed kmpd gt_matrix k_mtask
+  norm_single norm_batch norm_doc norm_single_mat norm_rowdiv norm_outer norm_doc_mat k_norm_coded b_norm_nostate b_norm_state.
